@@ -31,6 +31,24 @@ PROPS["C12"] = dict(
     floor=dict(quick=3000, thorough=20000),
 )
 
+PROPS["C01"] = dict(
+    level="exploration",
+    technique="rapidcheck-generated TLS sessions (Bear<->Bear, Bear<->OpenSSL both ways) with generated transport schedules; oracles: running prefix check, parameter/key-export agreement, independent wiretap record codec; suite x version x layout enumerator",
+    rule=("case = (pairing, suite, version, server key kind, per-side implementation set / buffer layout / fragment class, transport chunk policies "
+          "incl. 1-byte and header-splitting, application script with write sizes around fragment boundaries, closer). non-trivial = handshake "
+          "completed, >= 1 application byte in each direction and >= 1 transport chunk boundary strictly inside a record; distinct = "
+          "(pairing, suite, version, key, client esp/layout/class, server esp/layout/class, payload residue classes)"),
+    assumptions=["OpenSSL 3.0 libssl is a correct independent TLS 1.0-1.2 peer for the 28 suites it shares with BearSSL",
+                 "3DES and static-ECDH suites are checked Bear<->Bear plus the independent wiretap codec only (no foreign handshake implementation speaks them here)",
+                 "OpenSSL EVP primitives used by the wiretap codec are correct"],
+    targets=[dict(name="c01_session", src="c01_session.cpp", flavour="san", libs=SSL_LIBS, noseed=True)],
+    quick=[("c01_session", "enum", dict(shards=16)),
+           ("c01_session", "rc", dict(cases=6400, shards=16))],
+    thorough=[("c01_session", "enum", dict(shards=16)),
+              ("c01_session", "rc", dict(cases=60000, shards=16))],
+    floor=dict(quick=300, thorough=3000),
+)
+
 # ---------------------------------------------------------------- manifest text
 HOOK_COMMITS = ["b37444c", "e1637c5"]
 NOT_APPLICABLE = {}
@@ -43,4 +61,14 @@ MANIFEST_TEXT["C12"] = dict(
           "(0..1040 thorough) and 32-bit/128-bit counter wraps."),
     design_ref="DESIGN.md section 4, C12",
     note="trusts OpenSSL 3.0 libcrypto single-block ciphers and ChaCha20-Poly1305; ChaCha20 wrap semantics and GHASH references are written in the harness from RFC 7539 / SP 800-38D",
+)
+
+MANIFEST_TEXT["C01"] = dict(
+    text=("Generated end-to-end sessions: every one of the 45 suites x admissible versions x buffer layouts is run Bear<->Bear under a "
+          "byte-splitting schedule (enumerator), and thousands of random configurations/schedules/scripts are run incl. against OpenSSL "
+          "libssl in both roles. Oracles are independent of the code under test: the peer implementation, RFC 5705 exporter equality, a "
+          "running byte-exact prefix check, and a wiretap that re-derives the key block from master secret + randoms with OpenSSL and "
+          "authenticates every record. Exploration, not proof."),
+    design_ref="DESIGN.md section 4, C01",
+    note="trusts OpenSSL 3.0 libssl/libcrypto; 3DES and static-ECDH suites have no foreign handshake peer in this image (wiretap + Bear<->Bear only)",
 )
